@@ -136,7 +136,7 @@ def why_invalid(m, op):
 
 @st.composite
 def histories(draw, tier, spf_cap=256):
-    api = draw(st.sampled_from(["py", "py", "c"]))
+    api = draw(st.sampled_from(["py", "c"]))
     cfg = draw(S.rf_configs(spf_cap=spf_cap, boundary_p=0.5))
     max_steps = 15 if tier == "quick" else draw(st.sampled_from([15, 25, 40]))
     nsteps = draw(st.integers(3, max_steps))
@@ -150,7 +150,7 @@ def histories(draw, tier, spf_cap=256):
         if want_invalid:
             # mutate a multi-block description where possible
             base = op
-            if draw(st.integers(0, 2)) == 0:
+            if draw(st.integers(0, 1 if api == "c" else 2)) == 0 and not cfg["cont"]:
                 base = multi_file_blocks(draw, cfg, m.next_avail)
             elif op["op"] == "w" or len(op.get("g", [])) < 2:
                 alt, _ = S.draw_op(draw, cfg, m.next_avail, allow_blocks=True, allow_empty=False, max_files=2, max_blocks=4)
@@ -173,6 +173,27 @@ def histories(draw, tier, spf_cap=256):
 
 def strategy(tier):
     return histories(tier)
+
+
+def directed_cases(tier):
+    """Malformed block descriptions whose malformed step lies in a LATER file than the first block (both APIs)."""
+    cfg = {"kind": "i", "size": 2, "order": "<", "cplx": 0, "form": "struct", "nsub": 1, "n": 100, "d": 1, "F": 1000, "S": 10,
+           "cont": 0, "comp": 0, "checksum": 0, "salt": 9, "uuid": "verif", "start": 170000000000}
+    bads = [
+        {"op": "b", "len": 40, "g": [20, 150, 140], "d": [0, 10, 30]},   # indices decrease in the third file
+        {"op": "b", "len": 40, "g": [20, 150, 300], "d": [0, 10, 10]},   # offsets repeat
+        {"op": "b", "len": 40, "g": [20, 150, 155], "d": [0, 10, 30]},   # overlap: 20 samples in a step of 5
+        {"op": "b", "len": 40, "g": [20, 150, 300], "d": [0, 10, 40]},   # last offset == len
+    ]
+    out = []
+    for api in ("py", "c"):
+        for bad in bads:
+            ops = [{"op": "w", "idx": 0, "len": 10, "cid": 0, "expect": None}, dict(bad, cid=1),
+                   {"op": "w", "idx": 10, "len": 5, "cid": 2, "expect": None},
+                   {"op": "w", "idx": 400, "len": 5, "cid": 3, "expect": None}]
+            case = relabel({"cfg": cfg, "ops": ops, "api": api, "reads": []})
+            out.append(case)
+    return out
 
 
 # ------------------------------------------------------------------ execution
